@@ -86,7 +86,7 @@ _V_RE = re.compile(r'<<\s*"V",\s*("[^"]*"|-?\d+),\s*"(\w+)",\s*(-?\d+),\s*"([^"]
 
 
 def validate(module, traces, tables=None, shards=None, timeout=1800, extra_env=None,
-             cfg_extra='', xmx='3g', name=None):
+             cfg_extra='', xmx='3g', name=None, with_tables=True):
     """Validate traces (list of dicts with unique 'id') against spec/<module>.tla.
 
     Returns (verdicts, stats): verdicts maps id -> (status, index, why), with
@@ -105,7 +105,8 @@ def validate(module, traces, tables=None, shards=None, timeout=1800, extra_env=N
         json.dump(tables or {'_': {'enc': {}, 'dec': {}}}, f)
     cfg = os.path.join(d, module + '.cfg')
     with open(cfg, 'w') as f:
-        f.write('SPECIFICATION Spec\nCONSTANT Tables <- TraceTables\nCHECK_DEADLOCK FALSE\n' + cfg_extra)
+        f.write('SPECIFICATION Spec\n' + ('CONSTANT Tables <- TraceTables\n' if with_tables else '')
+                + 'CHECK_DEADLOCK FALSE\n' + cfg_extra)
     parts = [traces[k::shards] for k in range(shards)]
     files = []
     for k, part in enumerate(parts):
